@@ -253,23 +253,23 @@ class IpDevice(Device):
         """
         Setter for host property
         """
-        host, port = self.local.ha
-        self.local.ha = (value, port)
+        host, port = self.ha
+        self.ha = (value, port)
 
     @property
     def port(self):
         """
-        Property that returns host of local interface ha duple (host, port)
+        Property that returns port of local interface ha duple (host, port)
         """
         return self.ha[1]
 
     @port.setter
     def port(self, value):
         """
-        Setter for host property
+        Setter for port property
         """
-        host, port = self.local.ha
-        self.local.ha = (host, value)
+        host, port = self.ha
+        self.ha = (host, value)
 
 
 class IpLocalDevice(IpDevice, LocalDevice):
